@@ -4,7 +4,7 @@ configuration files exist; after every event there must be exactly one file per 
 import json
 from . import common as C, arb
 
-CID, DX, DS, DC, DF, CNEV, DD, DK, DL, DFILES, DPT = range(11)
+CID, DX, DS, DC, DF, CNEV, DD, DK, DL, DFILES, DPT, DST, DSTC, DFSPEC = range(14)
 
 
 def replay_files(run, path):
@@ -46,6 +46,14 @@ def judge_files(run, cases):
                         theorem="Arb.Cases.files_ok")
         elif r[DPT] != 0:
             judge_pt(run, c, r, "C10")
+        elif r[DFSPEC] != 0:
+            st = c["ctl"][r[DFSPEC] - 1]
+            ev = c["histories"][0]["events"][r[DFSPEC] - 1]
+            run.failing({"kind": "files-vs-specified-served-set", "level": "controller"}, [c],
+                        "C10: after step %d of case %d (%s %s %s/%s through the real lbc.sync) the configuration files are not one per resource that the current object set makes active "
+                        "(Ingress/VirtualServer/TransportServer that owns a host or listener according to the specification): files %s"
+                        % (r[DFSPEC], c["id"], ev["op"], ev["spec"]["kind"], ev["spec"].get("ns"), ev["spec"].get("name"), json.dumps(st["files"])),
+                        theorem="Arb.Cases.files_spec_run")
 
 
 def judge_pt(run, c, r, pid):
